@@ -83,6 +83,9 @@ SEGS = [_seg_walk, _seg_walk, _seg_zigzag, _seg_monotone, _seg_extremes, _seg_fl
 
 def gen_signal(rng, min_len=1, max_len=80):
     r = rng.random()
+    if max_len == 80 and rng.random() < 0.02:
+        max_len = rng.choice([300, 1200, 2500])     # a few long signals per batch (deep stacks, many chunks)
+        r = 0.99
     if r < 0.06:
         n_target = rng.randint(min_len, max(min_len, 3))
     elif r < 0.55:
@@ -93,9 +96,12 @@ def gen_signal(rng, min_len=1, max_len=80):
     sig = []
     while len(sig) < n_target:
         seg = rng.choice(SEGS)
-        m = rng.randint(1, max(1, min(25, n_target - len(sig))))
+        m = rng.randint(1, max(1, min(25 if n_target <= 200 else 200, n_target - len(sig))))
         sig += seg(rng, m, amp)
     sig = sig[:n_target]
+    if n_target > 200 and rng.random() < 0.5:
+        # slowly growing envelope: residual stack keeps growing, extremes are re-visited after many chunks
+        sig = [x * (1.0 + (i // 50)) for i, x in enumerate(sig)]
     # plateaus: repeat samples
     if rng.random() < 0.45:
         p = rng.choice([0.1, 0.3, 0.6])
@@ -325,7 +331,11 @@ def _execute(prop, trace):
         log.add(r, b, o)
         if b < n:
             out.count("border:" + border_kind(b, sig, runs, kinds, rev, run_of))
-        if prop == "C01":
+        nb = len(st["bounds"]) - 1
+        thin = n > 150 and not last and (st["k"] % max(1, nb // 8)) != 0     # long signals: a subset of the borders plus the end
+        if thin:
+            out.count("probe:border_checks_thinned")
+        elif prop == "C01":
             check_c01(out, st, rp, r, sig[:b], o, flush)
         else:
             check_c02_accounting(out, st, rp, r, sig[:b], o)
@@ -348,7 +358,7 @@ def _execute(prop, trace):
 def signal_features(sig, runs, kinds):
     f = []
     n = len(sig)
-    f.append("n%d" % (0 if n < 3 else 1 if n < 10 else 2 if n < 30 else 3))
+    f.append("n%d" % (0 if n < 3 else 1 if n < 10 else 2 if n < 30 else 3 if n <= 80 else 4))
     if any(k and b > a for k, (v, a, b) in zip(kinds, runs)):
         f.append("revplat")
     if any((not k) and b > a for k, (v, a, b) in zip(kinds, runs)):
